@@ -1196,6 +1196,7 @@ fn validate_archive(path: &str, check_checksums: bool, threads: Option<usize>) -
             files.len() - errors,
             format_bytes(total_size)
         );
+        anyhow::bail!("Archive validation failed with {errors} errors");
     }
 
     Ok(())
